@@ -1509,8 +1509,8 @@ op_map = {
     "Z3_OP_FPA_FP": None,
     "Z3_OP_FPA_GE": "fpGEQ",
     "Z3_OP_FPA_GT": "fpGT",
-    "Z3_OP_FPA_IS_INF": None,
-    "Z3_OP_FPA_IS_NAN": None,
+    "Z3_OP_FPA_IS_INF": "fpIsInf",
+    "Z3_OP_FPA_IS_NAN": "fpIsNaN",
     "Z3_OP_FPA_IS_NEGATIVE": None,
     "Z3_OP_FPA_IS_NORMAL": None,
     "Z3_OP_FPA_IS_POSITIVE": None,
@@ -1787,8 +1787,8 @@ op_type_map = {
     "Z3_OP_FPA_FP": None,
     "Z3_OP_FPA_GE": Bool,
     "Z3_OP_FPA_GT": Bool,
-    "Z3_OP_FPA_IS_INF": None,
-    "Z3_OP_FPA_IS_NAN": None,
+    "Z3_OP_FPA_IS_INF": Bool,
+    "Z3_OP_FPA_IS_NAN": Bool,
     "Z3_OP_FPA_IS_NEGATIVE": None,
     "Z3_OP_FPA_IS_NORMAL": None,
     "Z3_OP_FPA_IS_POSITIVE": None,
